@@ -232,8 +232,13 @@ def check_case(case):
             )
             continue
         met = cfg.met
-        if met.n_timesteps != n:
-            out.bad(f"{route}: n_timesteps == {met.n_timesteps}, expected {n}")
+        try:
+            nts = met.n_timesteps
+        except Exception as e:
+            out.bad(f"{route}: n_timesteps raised {type(e).__name__}: {e}")
+            continue
+        if nts != n:
+            out.bad(f"{route}: n_timesteps == {nts}, expected {n}")
         for i, exp in enumerate(steps):
             try:
                 got = met.get_step(i)
